@@ -487,6 +487,10 @@ func (s *Scheme) Sign(c context.Context, msgHash []byte, topic string) ([]byte, 
 		signingProtocol, err := s.prepareSigning(membership, partyIDs, topicHash, UIntsToUniversalIDs(signers))
 		if err != nil {
 			s.Logger.Errorf("Failed initializing signing instance: %v", err)
+			resultChan <- struct {
+				sig []byte
+				err error
+			}{err: err}
 			return
 		}
 
@@ -534,6 +538,10 @@ func (s *Scheme) Sign(c context.Context, msgHash []byte, topic string) ([]byte, 
 				s.Logger.Warnf("Failed synchronizing on pre-signing topic: %v", err)
 			}
 			cleanupSyncTopic()
+			resultChan <- struct {
+				sig []byte
+				err error
+			}{err: err}
 		}
 	}
 
@@ -541,6 +549,10 @@ func (s *Scheme) Sign(c context.Context, msgHash []byte, topic string) ([]byte, 
 	if err != nil {
 		return nil, err
 	}
+
+	// Whatever the outcome, do not retain the handlers of this signing session once we return,
+	// otherwise a failed or timed out attempt prevents signing on this topic ever again.
+	defer cleanup()
 
 	go func() {
 		if err := sync.Synchronize(ctx, initializeSigningInstance, topicHash, s.Threshold+1, SyncInterval); err != nil {
